@@ -45,10 +45,14 @@ impl Generator {
         } else {
             self.min_opcodes
         };
+        #[cfg(feature = "verif-hooks")]
+        crate::verif::run(self, target_opcodes, use_frame);
 
         // generation phase - allow stack to grow and build complex structures
         for _ in 0..target_opcodes {
             let valid_ops = self.get_valid_opcodes();
+            #[cfg(feature = "verif-hooks")]
+            crate::verif::choice(self, &valid_ops, source);
             if valid_ops.is_empty() {
                 // no valid moves available, move to cleanup
                 break;
@@ -57,9 +61,13 @@ impl Generator {
             self.emit_and_process(chosen, source)?;
         }
 
+        #[cfg(feature = "verif-hooks")]
+        crate::verif::set_phase(crate::verif::Phase::Tail);
         // cleanup phase - reduce stack to exactly 1 item for STOP
         self.cleanup_for_stop();
 
+        #[cfg(feature = "verif-hooks")]
+        crate::verif::set_phase(crate::verif::Phase::Stop);
         self.emit_opcode(OpcodeKind::Stop);
 
         // if we reserved space for FRAME, fill it in now with the correct size
